@@ -138,6 +138,8 @@ theorem Mgr.init_all (st : Store) (b : BindSet) : MRes st ((Mgr.init st b).1, (M
   | none => exact ⟨Reach.refl _, cacheOK_nil, cacheOK_nil⟩
   | core => exact bindAll_all false _ st Mgr.empty cacheOK_nil cacheOK_nil
   | rdflib => exact bindAll_all false _ st Mgr.empty cacheOK_nil cacheOK_nil
+  | cc => exact ⟨Reach.refl _, cacheOK_nil, cacheOK_nil⟩
+  | unknown => exact ⟨Reach.refl _, cacheOK_nil, cacheOK_nil⟩
 
 theorem getQNames_all : ∀ (d : List (Str × Bool)) (st : Store) (m : Mgr),
     CacheOK m.cache → CacheOK m.scache → MRes st (getQNames d st m)
@@ -260,6 +262,38 @@ theorem serDoc_all (fb : Bool) : ∀ (qs : List (Str × Bool)) (st : Store) (m :
       have ih := serDoc_all fb r (docGetQName st m d u g fb).1 (docGetQName st m d u g fb).2.1 d2 _ hm.cache hm.scache hacc
       exact ⟨⟨hm.reach.trans ih.1.reach, ih.1.cache, ih.1.scache⟩, ih.2⟩
 
+theorem QRes.toM' {st : Store} {u : Str} {r : Store × Mgr × Except Err QN} (h : QRes st u r) :
+    MRes st (r.1, r.2.1) := ⟨h.reach, h.cache, h.scache⟩
+
+theorem strictSeq_all : ∀ (us : List Str) (st : Store) (m : Mgr) (acc : List QN),
+    CacheOK m.cache → CacheOK m.scache →
+    MRes st ((strictSeq us st m acc).1, (strictSeq us st m acc).2.1)
+  | [], st, m, acc, hc, hs => ⟨Reach.refl _, hc, hs⟩
+  | u :: r, st, m, acc, hc, hs => by
+    have h0 := (computeQnameStrict_all (st := st) u true hc hs).toM'
+    simp only [strictSeq]
+    split
+    · exact h0
+    · next a _ =>
+      have ih := strictSeq_all r (Mgr.computeQnameStrict st m u true).1 (Mgr.computeQnameStrict st m u true).2.1
+        (acc ++ [a]) h0.cache h0.scache
+      exact ⟨h0.reach.trans ih.reach, ih.cache, ih.scache⟩
+
+theorem serXml_all (preds stmts : List Str) (st : Store) (m : Mgr)
+    (hc : CacheOK m.cache) (hs : CacheOK m.scache) :
+    MRes st ((serXml preds stmts st m).1, (serXml preds stmts st m).2.1) := by
+  have h1 := strictSeq_all preds st m [] hc hs
+  have h2 := strictSeq_all stmts (strictSeq preds st m []).1 (strictSeq preds st m []).2.1 [] h1.cache h1.scache
+  unfold serXml
+  simp only
+  split
+  · exact h1
+  · split
+    · exact h1
+    · split
+      · exact ⟨h1.reach.trans h2.reach, h2.cache, h2.scache⟩
+      · exact ⟨h1.reach.trans h2.reach, h2.cache, h2.scache⟩
+
 /-! ### the history invariant -/
 
 structure HInv (s : St) : Prop where
@@ -285,9 +319,34 @@ theorem HInv.put {s : St} (h : HInv s) (i : Bool) {r : Store × Mgr} (hr : MRes 
 theorem QRes.toM {st : Store} {u : Str} {r : Store × Mgr × Except Err QN} (h : QRes st u r) :
     MRes st (r.1, r.2.1) := ⟨h.reach, h.cache, h.scache⟩
 
+/-- TriG: the contexts of one document, each through its own manager, one prefix table -/
+theorem serTrig_all (fb : Bool) : ∀ (cs : List (Bool × List (Str × Bool))) (s : St) (d : Doc)
+    (acc : List (Str × Str × Str)), HInv s → NamesOK d acc →
+    HInv (serTrig fb cs s d acc).1 ∧ ∀ d' res, (serTrig fb cs s d acc).2 = .ok (d', res) → NamesOK d' res
+  | [], s, d, acc, h, ha => by
+    refine ⟨h, ?_⟩
+    intro d' res e
+    simp only [serTrig] at e
+    injection e with e; injection e with e1 e2; subst e1 e2; exact ha
+  | (i, qs) :: r, s, d, acc, h, ha => by
+    have hd := serDoc_all fb qs s.store (s.mgr i) d acc (h.mgr i).1 (h.mgr i).2 ha
+    have hp := h.put i hd.1
+    simp only [serTrig]
+    split
+    · exact ⟨hp, by intro d' res e'; exact absurd e' (by simp)⟩
+    · next d2 acc2 hq => exact serTrig_all fb r _ d2 acc2 hp (hd.2 d2 acc2 hq)
+
 theorem HInv.step {s : St} (h : HInv s) (op : Op) : HInv (s.step op).1 := by
   cases op with
-  | minit i b => exact h.put i (Mgr.init_all _ b)
+  | minit i b =>
+    simp only [St.step]
+    split
+    · exact h
+    · exact h.put i (Mgr.init_all _ b)
+  | serxml i preds stmts => exact h.put i (serXml_all preds stmts _ _ (h.mgr i).1 (h.mgr i).2)
+  | sertrig fb cs =>
+    have hd := (serTrig_all fb cs s Doc.empty [] h (by intro u dp l hm; exact absurd hm (by simp))).1
+    exact ⟨hd.store, cacheOK_nil, hd.s0, cacheOK_nil, hd.s1⟩
   | bind i p n ov rp => exact h.put i (Mgr.bind_all p n ov rp (h.mgr i).1 (h.mgr i).2)
   | sbind p n ov =>
     simp only [St.step]
